@@ -4,6 +4,7 @@ import (
 	"bytes"
 	"encoding/base64"
 	"encoding/json"
+	"errors"
 	"fmt"
 	"os"
 	"path/filepath"
@@ -227,12 +228,42 @@ func parseUnits(line string, partOrder []string, pt map[string]string, ft map[st
 	return
 }
 
+// failingOut is a destination that rejects (error) or truncates (short count) what ConsoleWriter hands it.
+type failingOut struct{ short bool }
+
+func (f failingOut) Write(p []byte) (int, error) {
+	if f.short {
+		return len(p) / 2, nil
+	}
+	return 0, errors.New("destination down")
+}
+
+// poison: a ConsoleWriter Write that FAILS - its destination errors or accepts only part, or FormatExtra refuses the
+// event - right before the measured case. ConsoleWriter's scratch buffers are pooled package-wide: whatever the failed
+// Write leaves behind must not show up in the next event's line ("the same event and configuration always give the same bytes").
+func poison(mode int) {
+	ev := []byte(`{"level":"warn","message":"STALE stale","secret":"s3cr3t"}` + "\n")
+	switch mode % 3 {
+	case 0:
+		zerolog.ConsoleWriter{Out: failingOut{}, NoColor: true}.Write(ev)
+	case 1:
+		zerolog.ConsoleWriter{Out: failingOut{short: true}, NoColor: true}.Write(ev)
+	case 2:
+		zerolog.ConsoleWriter{Out: &bytes.Buffer{}, NoColor: true, FormatExtra: func(map[string]interface{}, *bytes.Buffer) error {
+			return errors.New("extra refused")
+		}}.Write(ev)
+	}
+}
+
 func (f *consoleFam) play(l *Line, out *rec) error {
 	out.emit(map[string]interface{}{"a": "Reset", "id": l.ID})
 	for ci, raw := range l.Ops {
 		var c consCase
 		if err := json.Unmarshal(raw, &c); err != nil {
 			return err
+		}
+		if ci%3 == 0 {
+			poison(ci / 3)
 		}
 		if c.Raw != "" {
 			inb, _ := base64.StdEncoding.DecodeString(c.Raw)
